@@ -1404,6 +1404,8 @@ Janet janet_call(JanetFunction *fun, int32_t argc, const Janet *argv) {
 #ifdef JANET_EV
         if (janet_vm.root_fiber != NULL && signal == JANET_SIGNAL_EVENT) {
             janet_vm.root_fiber->sched_id++;
+            /* The wait is abandoned: a stream listener it registered must not outlive it */
+            janet_fiber_did_resume(janet_vm.root_fiber);
         }
 #endif
         if (signal != JANET_SIGNAL_ERROR) {
